@@ -98,6 +98,8 @@ def showDest : Dest → String
 the exit status, the destination afterwards and the number of files left behind next to it. -/
 def handleS08 (toks : List String) : String :=
   let go (so src dest : String) (lim : Option (Option Nat)) : String :=
+    -- `nu8:`: the destination's name is not valid UTF-8 — irrelevant to what compile does
+    let dest := if dest.startsWith "nu8:" then (dest.drop 4).toString else dest
     let d : Option Dest :=
       if dest == "absent" then some (.file none)
       else if dest == "devfull" then some .devFull
